@@ -22,6 +22,7 @@ from polyvc import Env, Opt, Struct, Tuple, Unsupported
 FILE = "zkir/src/zkir.rs"
 PROP = "C16"
 LABEL = "zkir"
+CONSTANTS_PROPS = ["C16", "C18"]
 TRUSTED = [
     "c16_zkir_routing: bincode::decode_from_std_read / serde_json::from_str / Instruction::check_arity / Iterator::try_for_each are atoms (assumed: try_for_each is Ok iff the closure is Ok on every element)",
     "c16_zkir_routing: that Instruction::check_arity accepts only instructions the off-circuit / in-circuit parsers can process without panicking is NOT decided (parsers out of reach)",
@@ -92,21 +93,21 @@ PREDICATES = {
         "item": ["impl Relation for ZkirRelation", "fn read_relation"],
         "inputs": lambda: {"reader": opaque("reader")},
         "spec": lambda loc: ("and", ("atom", "bincode_decode_ok"), ("atom", "arity_ok:decoded.instructions")),
-        "value": _is_from_instructions, "props": ["C16"], "witness": "read_relation",
+        "value": _is_from_instructions, "props": ["C16", "C18"], "witness": "read_relation",
         "clause": "Ok exactly when the bincode decode succeeds AND ZkirRelation::from_instructions accepts the decoded instructions (arity validation is not bypassed); the relation returned is from_instructions' value",
     },
     "ZkirRelation::read": {
         "item": ["impl ZkirRelation", "fn read"],
         "inputs": lambda: {"raw": opaque("raw")},
         "spec": lambda loc: ("and", ("atom", "json_decode_ok"), ("atom", "arity_ok:decoded.instructions")),
-        "value": _is_from_instructions, "props": ["C16"], "witness": "read",
+        "value": _is_from_instructions, "props": ["C16", "C18"], "witness": "read",
         "clause": "Ok exactly when the JSON decode succeeds AND from_instructions accepts the decoded instructions; the relation returned is from_instructions' value",
     },
     "ZkirRelation::from_instructions": {
         "item": ["impl ZkirRelation", "fn from_instructions"],
         "inputs": lambda: {"instructions": Struct("Slice", {"_name": "instructions"})},
         "spec": lambda loc: ("atom", "arity_ok:instructions"),
-        "value": _stores_argument, "props": ["C16"], "witness": "from_instructions",
+        "value": _stores_argument, "props": ["C16", "C18"], "witness": "from_instructions",
         "clause": "Ok exactly when Instruction::check_arity succeeds on every instruction (try_for_each), and the stored program is the argument",
     },
 }
@@ -133,13 +134,13 @@ PREDICATES["Instruction::check_arity"] = {
                                                       "inputs": Struct("VecS", {"_name": "inputs"}),
                                                       "outputs": Struct("VecS", {"_name": "outputs"})})},
     "spec": lambda loc: ("and", ("atom", "input_arity(op).check(inputs.len)"), ("atom", "output_arity(op).check(outputs.len)")),
-    "props": ["C16"], "witness": "check_arity",
+    "props": ["C16", "C18"], "witness": "check_arity",
     "clause": "Ok exactly when the input count passes the operation's input arity AND the output count passes its output arity (Arity::check is under a Kani contract in unit c16_zkir_arity)",
 }
 
 CONSTRUCTORS = {
     "ZkirRelation.constructors": {
-        "type": "ZkirRelation", "allowed": ["from_instructions"], "props": ["C16"],
+        "type": "ZkirRelation", "allowed": ["from_instructions"], "props": ["C16", "C18"],
         "clause": "from_instructions (which establishes the arity invariant) is the only function of zkir/src/zkir.rs holding a struct literal of ZkirRelation",
     },
 }
@@ -263,7 +264,7 @@ PANICSITES = {
         "file": "zkir/src/instructions/operations/mod_exp.rs", "item": ["fn mod_exp_offcircuit"],
         "call": r"\.modpow\(", "guard": r"\bif [^{]*\bm\b[^{]*(is_zero\(\)|bits\(\) == 0|== &?BigUint::ZERO)[^{]*\{ return Err",
         "why": "num_bigint::BigUint::modpow panics when the modulus is zero; the modulus is a value of the (untrusted) IR program",
-        "props": ["C16"], "witness": "mod_exp_zero_modulus",
+        "props": ["C16", "C18"], "witness": "mod_exp_zero_modulus",
         "clause": "BigUint::modpow (panics on a zero modulus) is called only after a guard that returns an error for a zero modulus",
     },
 }
